@@ -293,7 +293,7 @@ theorem failed_save_keeps_memory (s : St) (m next : Nat) (save : Option Nat) (f 
 def demoCfg : Cfg := { guard := 1000000, saveInterval := 3000000000, maxLogical := 262144,
                        maxResetGapMs := 86400000, maxRetry := 10 }
 
-theorem demoCfg_ok : CfgOk demoCfg := ⟨by decide, by decide⟩
+theorem demoCfg_ok : CfgOk demoCfg := ⟨by decide, by decide, by decide⟩
 
 /-- On the un-serialised code (pinned tree before the fix) SetTSO may run between the decision and the
     save of a parked UpdateTimestamp.  Replaying that schedule on the model by bypassing the `blocked`
